@@ -35,9 +35,9 @@ function h_set(t,k,v) t[k]=v end
 function h_get(t,k) return t[k] end
 function h_len(t) return #t end
 function h_next1(t,k) return next(t,k) end
-function h_next(t) local n=0 local k,v=next(t) while k~=nil do n=n+1 if n>100000 then error("runaway traversal") end emit(k,v) k,v=next(t,k) end end
-function h_pairs(t) local n=0 for k,v in pairs(t) do n=n+1 if n>100000 then error("runaway traversal") end emit(k,v) end end
-function h_ipairs(t) local n=0 for i,v in ipairs(t) do n=n+1 if n>100000 then error("runaway traversal") end emit(i,v) end end
+function h_next(t) local n=0 local k,v=next(t) while k~=nil do n=n+1 if n>20000 then error("runaway traversal") end emit(k,v) k,v=next(t,k) end end
+function h_pairs(t) local n=0 for k,v in pairs(t) do n=n+1 if n>20000 then error("runaway traversal") end emit(k,v) end end
+function h_ipairs(t) local n=0 for i,v in ipairs(t) do n=n+1 if n>20000 then error("runaway traversal") end emit(i,v) end end
 function h_new() return {} end
 `
 
@@ -355,7 +355,7 @@ func (r *runner) next1(how string, cur lua.LValue) (lua.LValue, lua.LValue) {
 	return r.t.Next(cur)
 }
 
-const walkCap = 100000
+const walkCap = 20000
 
 // exec runs one step against the real code; g != nil means "generate the free choices now".
 func (r *runner) exec(s *Step, g *lib.Rand) {
@@ -490,6 +490,10 @@ func (r *runner) exec(s *Step, g *lib.Rand) {
 				cur = k
 			}
 		}
+		if len(d) > walkCap/2 {
+			r.failf("walk visited %d entries", len(d))
+			d = d[:40]
+		}
 		obs = d
 		coq = "SWalk " + tv.CoqKVs(d)
 	case "ipairs":
@@ -498,6 +502,10 @@ func (r *runner) exec(s *Step, g *lib.Rand) {
 			r.failf("ipairs raised: %v", err)
 		}
 		var vs []tv.V
+		if len(r.emitted) > walkCap/2 {
+			r.failf("ipairs visited %d entries", len(r.emitted))
+			r.emitted = r.emitted[:40]
+		}
 		for i, e := range r.emitted {
 			if n, ok := e[0].(lua.LNumber); !ok || int(n) != i+1 {
 				r.failf("ipairs index %v at step %d", e[0], i+1)
@@ -572,6 +580,11 @@ func (r *runner) exec(s *Step, g *lib.Rand) {
 			upds = append(upds, us)
 			tr = append(tr, tstep{r.ofKey(k), r.of(v), us})
 			cur = k
+		}
+		if len(tr) > walkCap/2 {
+			r.failf("traversal with updates visited %d entries", len(tr))
+			tr = tr[:40]
+			upds = upds[:40]
 		}
 		if g != nil {
 			s.Upd = upds
